@@ -566,3 +566,12 @@ Proof.
     by (intros ln; apply moving_sum_windows; exact Hw).
   apply (along_axis_windows_entry 0%Qc qsum); assumption.
 Qed.
+
+(* the let-bound forms used by the check functions are the spec definitions *)
+Lemma mu2_let_eq l : mu2_let l = mu2 l. Proof. reflexivity. Qed.
+Lemma mu3_let_eq l : mu3_let l = mu3 l. Proof. reflexivity. Qed.
+Lemma mu4_let_eq l : mu4_let l = mu4 l. Proof. reflexivity. Qed.
+Lemma ssd_let_eq l : ssd_let l = ssd l. Proof. reflexivity. Qed.
+Lemma scd_let_eq l : scd_let l = scd l. Proof. reflexivity. Qed.
+Lemma pearson_let_eq a b : (scd_let (combine a b), ssd_let a, ssd_let b) = pearson_triple a b. Proof. reflexivity. Qed.
+Lemma bcdc_let_eq a b : (mu2_let (vdiff a b), mu2_let (vsum a b)) = bcdc_pair a b. Proof. reflexivity. Qed.
